@@ -211,6 +211,11 @@ class CompositeFrontend(ConstrainedFrontend):
             self._owned_solvers.add(ns)
             self._store_child(ns)
 
+        # the parts replace the child: a name it was filed under and no part constrains any more (a variable that
+        # simplification eliminated) must not keep it among the children, next to its own parts
+        for v in [v for v, child in self._solvers.items() if child is s]:
+            del self._solvers[v]
+
         return ss
 
     def _reabsorb_solver(self, s):
